@@ -27,6 +27,7 @@ func arn(r string) string { return "arn:aws:kms:" + r + ":key" }
 // world is the fake cloud: one KMS per region, blobs are region-bound.
 type world struct {
 	failGen, failEnc, failDec map[string]bool
+	wrongDec                  map[string]bool // the region answers Decrypt with a data key that is not the one it wrapped
 	blobs                     map[string][]byte // blob id -> plaintext copy
 	blobRegion                map[string]string
 	nblob                     int
@@ -35,7 +36,7 @@ type world struct {
 }
 
 func newWorld(n int, wrapFaults, unwrapFaults bool) *world {
-	w := &world{failGen: map[string]bool{}, failEnc: map[string]bool{}, failDec: map[string]bool{}, blobs: map[string][]byte{}, blobRegion: map[string]string{}}
+	w := &world{failGen: map[string]bool{}, failEnc: map[string]bool{}, failDec: map[string]bool{}, wrongDec: map[string]bool{}, blobs: map[string][]byte{}, blobRegion: map[string]string{}}
 	for _, r := range regions[:n] {
 		if wrapFaults {
 			w.failGen[r] = vx.Bool("failgen")
@@ -43,6 +44,12 @@ func newWorld(n int, wrapFaults, unwrapFaults bool) *world {
 		}
 		if unwrapFaults {
 			w.failDec[r] = vx.Bool("faildec")
+			if vx.Param("wrongdec") == 1 && !w.failDec[r] {
+				// a region whose KMS hands back a key that does not open the system key (diverged key material,
+				// stale or substituted envelope entry): the plugin must move on to the next region and still
+				// leave no plaintext behind
+				w.wrongDec[r] = vx.Bool("wrongdec")
+			}
 		}
 	}
 	return w
@@ -86,6 +93,9 @@ func (w *world) decrypt(region string, blob []byte) ([]byte, error) {
 		return nil, errors.New("invalid ciphertext")
 	}
 	out := append([]byte(nil), pt...)
+	if w.wrongDec[region] {
+		rand.Read(out)
+	}
 	w.handedOut = append(w.handedOut, out)
 	return out, nil
 }
@@ -265,7 +275,7 @@ func WrapUnwrap() {
 	out, err := unwrapper.DecryptKey(context.Background(), env)
 	canUnwrap := false
 	for _, r := range regions[:n] {
-		if has[r] && !w.failDec[r] {
+		if has[r] && !w.failDec[r] && !w.wrongDec[r] {
 			canUnwrap = true
 		}
 	}
